@@ -280,7 +280,7 @@ def _make_int_patch(orig_int):
         with NoTracing():
             special = (not a and not kw
                        and (isinstance(val, _bl.SymbolicFloat)
-                            or type(val).__name__ == 'SymSeconds'))
+                            or type(val).__name__ in ('SymSeconds', 'SymRatio')))
         if special:
             return val.__int__()
         with NoTracing():
@@ -381,6 +381,16 @@ def _bitwise(op, a: Integral, b: Integral):
         return SymbolicInt(ea + m - base)
 
 
+def _int_truediv(op, a: SymbolicInt, b: float):
+    """symbolic_int / c for a positive integer-valued float constant c stays exact (symdt.SymRatio)"""
+    with NoTracing():
+        ok = type(b) is float and b > 0 and b == int(b) and b < 2 ** 53
+    if ok:
+        from symrt.symdt import SymRatio
+        return SymRatio(a, int(b))
+    return _bl.numeric_binop(op, a.__float__(), b)
+
+
 # --------------------------------------------------------------------------- dispatch table lookup
 class ForkingLookup:
     def __init__(self, d):
@@ -426,6 +436,7 @@ def install():
     register_patch(struct.Struct.unpack_from, _s_unpack_from)
     reg[int] = _make_int_patch(reg[int])
     _bl.setup_binop(_bitwise, {ops.and_, ops.or_, ops.xor})
+    _bl.setup_binop(_int_truediv, {ops.truediv})
     _bl._BIN_OPS.clear()
     for i, m in enumerate(_core._OPCODE_PATCHES):
         if type(m) is _oi.SymbolicSubscriptInterceptor:
